@@ -42,12 +42,20 @@ bool Tracer::onPrim(void* ptr, std::streamsize size, verif::Kind kind, bool read
 	offset += static_cast<uint64_t>(size);
 	if (mode != Mode::Generate || !reading) {
 		if (isStr) {
-			// a string ref is one index (>= 20.1.0.3) or a length followed by the text; the length decides
-			if (pendingStrParts == 0) {
+			// a string ref is one index (>= 20.1.0.3), or a length followed by the text (when the length is not 0)
+			if (!inlineStrings)
+				pendingStr = nullptr;
+			else if (pendingStrParts == 0) {
 				uint32_t v = 0;
-				std::memcpy(&v, ptr, std::min<std::streamsize>(4, size));
-				pendingStrParts = -1; // decided by the caller (Read/Write) through the next call or the end
-				(void) v;
+				std::memcpy(&v, ptr, static_cast<size_t>(std::min<std::streamsize>(4, size)));
+				if (v == 0)
+					pendingStr = nullptr;
+				else
+					pendingStrParts = 1;
+			}
+			else {
+				pendingStr = nullptr;
+				pendingStrParts = 0;
 			}
 		}
 		return false;
@@ -191,7 +199,7 @@ std::vector<std::string> allTypeNames() {
 	return n;
 }
 
-bool synthModel(NifFile& nif, const std::string& type, const std::string& ver, uint64_t seed, int count) {
+bool synthModel(NifFile& nif, const std::string& type, const std::string& ver, uint64_t seed, int count, uint32_t maxCount) {
 	NiFactory* fac = NiFactoryRegister::Get().GetFactoryByName(type);
 	if (!fac)
 		return false;
@@ -207,6 +215,7 @@ bool synthModel(NifFile& nif, const std::string& type, const std::string& ver, u
 	tr.rng = Rng(h);
 	tr.refRange = static_cast<uint32_t>(count) + 1;
 	tr.strRange = nstr;
+	tr.maxCount = maxCount;
 	auto root = hdr.GetBlock<NiNode>(0u);
 	for (int k = 0; k < count; ++k) {
 		std::unique_ptr<NiObject> blk = fac->Create();
